@@ -71,6 +71,27 @@ def same_len(ck, la, lb, fn, what):
         ck.refuted("L-LEN", fn, what, f"after the setter {linearize(la)!r}, fresh object {linearize(lb)!r}")
 
 
+def packed_len(ck, it, env, reported, stream, fn, what):
+    """reported length == number of octets of the packed stream (term level; gated items compared under the path facts)"""
+    from ..terms import bcat_len
+    try:
+        n = bcat_len(stream) if stream.k == "bcat" else length(stream)
+    except Exception as e:          # noqa: BLE001 - an unsupported stream item is an undecided obligation, not a verdict
+        ck.assume("L-LEN", fn, what, f"stream length not expressible: {e}")
+        return
+    a, b = linearize(reported), linearize(n)
+    if a.key() == b.key():
+        ck.proved("L-LEN", fn, what, f"{a!r}")
+        return
+    st, m = D.budgeted_prove(list(env.facts), binop("==", reported, n))
+    if st == "proved":
+        ck.proved("L-LEN", fn, what, f"{a!r} == {b!r} under the path facts")
+    elif st == "refutable":
+        ck.refuted("L-LEN", fn, what, f"reported {a!r}, packed {b!r} with {m}", witness=m)
+    else:
+        ck.assume("L-LEN", fn, what, f"reported {a!r}, packed {b!r}: {str(m)[:120]}")
+
+
 def conf_oids(it, env, conf):
     out = {conf.a[0]}
     for (oid, attr), v in env.heap.items():
@@ -141,6 +162,8 @@ def pdu_task(ck, task):
         same_stream(ck, it_a, pa, it_b, pb, f"{cls}.{setter_desc.split(' ')[0]} setter", f"after {setter_desc}: pack() == pack() of a freshly constructed PDU with the final values ({tag})", extra)
         same_len(ck, read_path(it_a, env_a, obj_a, "packet_len"), read_path(it_b, env_b, obj_b, "packet_len"), f"{cls}.{setter_desc.split(' ')[0]} setter",
                  f"after {setter_desc}: packet_len == that of a fresh PDU ({tag})")
+        packed_len(ck, it_a, env_a, read_path(it_a, env_a, obj_a, "packet_len"), pa, f"{cls}.{setter_desc.split(' ')[0]} setter",
+                   f"after {setter_desc}: packet_len == number of octets pack() emits ({tag})")
     ent = lambda it, env: PD.entity_id_tlv(it, env, P, "fault_entity")[0]
     if kind_name == "EOF":
         check("fault_location := TLV", ("plain", [("fault_location", ent)]), "fault location")
@@ -179,6 +202,11 @@ def pdu_task(ck, task):
             return construct(it, env, f"{FD}.SegmentMetadata", dict(record_cont_state=CF.esym(P, "record_cont_state", f"{FD}.RecordContinuationState"), metadata=sym("metadata", ty="bytes")))
         check("segment_metadata := metadata", ("no metadata", [("segment_metadata", md)]), "metadata", extra={"offset": 64})
         check("segment_metadata := None", ("metadata", [("segment_metadata", lambda it, env: NONE)]), "no metadata", extra={"offset": 64})
+        def md_empty(it, env):
+            return construct(it, env, f"{FD}.SegmentMetadata", dict(record_cont_state=CF.esym(P, "record_cont_state", f"{FD}.RecordContinuationState"), metadata=C(b"")))
+        check("segment_metadata := metadata without octets", ("no metadata", [("segment_metadata", md_empty)]), "empty metadata", extra={"offset": 64})
+        check("segment_metadata := metadata without octets (replacing metadata)", ("metadata", [("segment_metadata", md_empty)]), "empty metadata", extra={"offset": 64})
+        check("segment_metadata := metadata (replacing metadata without octets)", ("empty metadata", [("segment_metadata", md)]), "metadata", extra={"offset": 64})
         check("file_data := same symbol after a pack", ("metadata", [("file_data", lambda it, env: sym("file_data", ty="bytes"))]), "metadata", extra={"offset": 64})
 
 
